@@ -55,6 +55,7 @@ theorem chunkBodies_step (little : Bool) (f : Nat) (c tail : Bytes) (h : c.lengt
   simp only [chunkHeader, List.cons_append, List.nil_append, chunkBodies]
   rw [header_size _ _ (flagsByte_lt _ _ _) h, header_type _ _ (flagsByte_lt _ _ _) h, decode_flagsByte]
   simp
+  try omega
 
 /-- the final chunk ends the loop; whatever follows is ignored -/
 theorem chunkBodies_last (little : Bool) (f : Nat) (c tail : Bytes) (h : c.length < 16777216) :
@@ -62,6 +63,7 @@ theorem chunkBodies_last (little : Bool) (f : Nat) (c tail : Bytes) (h : c.lengt
   simp only [chunkHeader, List.cons_append, List.nil_append, chunkBodies]
   rw [header_size _ _ (flagsByte_lt _ _ _) h, header_type _ _ (flagsByte_lt _ _ _) h, decode_flagsByte]
   simp
+  try omega
 
 theorem chunkBodies_encode (little : Bool) (cs : List Bytes) (hne : cs ≠ []) (hs : SmallChunks cs)
     (junk : Bytes) (f : Nat) (hf : cs.length ≤ f) :
@@ -92,18 +94,16 @@ theorem chunkEncode_length_ge (little : Bool) (cs : List Bytes) : cs.length ≤ 
       simp [chunkHeader]; omega
 
 theorem stream2bytearray_encode (little : Bool) (cs : List Bytes) (hs : SmallChunks cs) (junk : Bytes)
-    (hj : cs = [] → junk = []) :
+    (hne : cs ≠ []) :
     stream2bytearray true (chunkEncode little cs ++ junk) = .ok cs.flatten := by
   unfold stream2bytearray
-  by_cases hne : cs = []
-  · subst hne
-    rw [hj rfl]
-    simp [chunkEncode, chunkBodies]
-    rfl
-  · rw [chunkBodies_encode little cs hne hs junk _ (by
-      have := chunkEncode_length_ge little cs
-      simp only [List.length_append]; omega)]
-    rfl
+  rw [chunkBodies_encode little cs hne hs junk _ (by
+    have := chunkEncode_length_ge little cs
+    simp only [List.length_append]; omega)]
+  rfl
+
+/-- no data at all is not a response any more: the loop's `else` raises -/
+theorem stream2bytearray_empty : stream2bytearray true [] = .error .eofError := rfl
 
 /-! ### byte order -/
 
@@ -193,16 +193,18 @@ theorem safeDmrAndData_encode (last error little : Bool) (dmr data : Bytes) (h :
   simp only [chunkHeader, List.cons_append, List.nil_append, safeDmrAndData]
   rw [header_size _ _ (flagsByte_lt _ _ _) h, header_type _ _ (flagsByte_lt _ _ _) h, decode_flagsByte]
   simp
+  try omega
 
 theorem unpackResponse_encode (little : Bool) (layoutsOf : Bytes → Except Err (List Layout))
     (dmr : Bytes) (ss : List Sent) (chunks : List Bytes)
     (hd : dmr.length < 16777216) (hl : layoutsOf dmr = .ok (ss.map Sent.layout))
-    (hs : ∀ s ∈ ss, SentOk s) (hc : SmallChunks chunks) (hp : chunks.flatten = serialise little ss) :
+    (hs : ∀ s ∈ ss, SentOk s) (hc : SmallChunks chunks) (hne : chunks ≠ [])
+    (hp : chunks.flatten = serialise little ss) :
     unpackResponse true layoutsOf (encodeResponse little dmr chunks)
       = .ok (dmr, little, ss.map fun s => ⟨s.values, some (swapped little s.checksum)⟩) := by
   unfold unpackResponse encodeResponse
   rw [safeDmrAndData_encode false false little dmr _ hd]
-  have h2 := stream2bytearray_encode little chunks hc [] (fun _ => rfl)
+  have h2 := stream2bytearray_encode little chunks hc [] hne
   rw [List.append_nil] at h2
   simp only [bind, Except.bind, hl, h2, hp, unpackVars_serialise little ss hs]
   rfl
